@@ -6,6 +6,7 @@ Engine
 Engine runs the simulation.
 """
 
+import copy
 import cProfile
 import pstats
 import os
@@ -41,7 +42,7 @@ from vivarium.library.topology import (
     inverse_topology,
     normalize_path,
 )
-from vivarium.library.dict_utils import apply_func_to_leaves
+from vivarium.library.dict_utils import apply_func_to_leaves, deep_merge
 from vivarium.core.types import (
     HierarchyPath, Topology, State, Update, Processes, Steps,
     Flow, Schema)
@@ -525,7 +526,12 @@ class Engine:
                 self.steps = composite['steps']
                 self.flow = composite['flow']
                 self.topology = composite['topology']
-                self.initial_state = composite['state'] or self.initial_state
+                if composite['state']:
+                    # the composite's own state, overridden by the
+                    # initial state given for this engine
+                    self.initial_state = deep_merge(
+                        copy.deepcopy(composite['state']),
+                        self.initial_state)
             else:
                 raise ValueError(
                     'load either composite, store, or '
